@@ -406,6 +406,7 @@ fn check_member_with_unresolved_tparams(
     }
   };
   let class_id = obj_type.id;
+  let is_class_statics = obj_type.is_class_statics;
   if let Some(method_type_info) =
     cx.get_method_type(obj_type, expression.field_name.name, expression.common.loc)
   {
@@ -511,8 +512,10 @@ fn check_member_with_unresolved_tparams(
       field_order_mapping.insert(field.name, i);
       field_mappings.insert(field.name, (field.type_, field.is_public));
     }
-    if let Some((field_type, _)) =
-      field_mappings.get(&expression.field_name.name).filter(|(_, is_public)| *is_public)
+    // Only an instance has fields: the name of the class by itself does not.
+    if let Some((field_type, _)) = field_mappings
+      .get(&expression.field_name.name)
+      .filter(|(_, is_public)| *is_public && !is_class_statics)
     {
       let type_ = Arc::new(field_type.reposition(expression.common.loc));
       let order = *field_order_mapping.get(&expression.field_name.name).unwrap();
